@@ -81,6 +81,71 @@ def lean_list(vals, per_line=24):
     return "[\n" + ",\n".join(lines) + "]"
 
 
+def lr_preds(scalars, tables):
+    """Witness for the LR stack invariant (Dmn/Model/LalrStack.lean): for every state the states from which
+    the driver can push it — shift targets, and goto targets of the states a reduction can uncover, as the
+    least fixed point over the tables.  Not trusted: `stackOk` re-checks the closure conditions in Lean;
+    a witness that is wrong or empty makes the theorem `lalr_stack_ok` fail, nothing else."""
+    try:
+        PACT, DEFACT, TABLE, CHECK = tables["YY_PACT"], tables["YY_DEF_ACT"], tables["YY_TABLE"], tables["YY_CHECK"]
+        PGOTO, DEFGOTO, R1, R2 = tables["YY_P_GOTO"], tables["YY_DEF_GOTO"], tables["YY_R1"], tables["YY_R2"]
+        NT, LAST, TNINF, FINAL = scalars["YY_N_TOKENS"], scalars["YY_LAST"], scalars["YY_TABLE_N_INF"], scalars["YY_FINAL"]
+        n_states = len(PACT)
+        shifts = [set() for _ in range(n_states)]
+        reds = [set() for _ in range(n_states)]
+        for i, (t, c) in enumerate(zip(TABLE, CHECK)):
+            if c < 0:
+                continue
+            for s in range(n_states):
+                if PACT[s] + c == i:
+                    if t > 0:
+                        shifts[s].add(t)
+                    elif t != TNINF:
+                        reds[s].add(-t)
+        for s in range(n_states):
+            if s != FINAL and DEFACT[s] != 0:
+                reds[s].add(DEFACT[s])
+
+        def goto(u, a):
+            i = PGOTO[a] + u
+            if 0 <= i <= LAST and CHECK[i] == u:
+                return TABLE[i]
+            return DEFGOTO[a]
+
+        preds = [[] for _ in range(n_states)]
+        for s in range(n_states):
+            for v in sorted(shifts[s]):
+                if 0 <= v < n_states and s not in preds[v]:
+                    preds[v].append(s)
+        for _round in range(64):
+            changed = False
+            for s in range(n_states):
+                for r in sorted(reds[s]):
+                    if not (0 <= r < len(R1)):
+                        continue
+                    a = R1[r] - NT
+                    if not (0 <= a < len(PGOTO)):
+                        continue
+                    b = [s]
+                    for _ in range(max(R2[r], 0)):
+                        nb = []
+                        for v in b:
+                            for u in preds[v]:
+                                if u not in nb:
+                                    nb.append(u)
+                        b = nb
+                    for u in b:
+                        g = goto(u, a)
+                        if 0 <= g < n_states and u not in preds[g]:
+                            preds[g].append(u)
+                            changed = True
+            if not changed:
+                break
+        return [sorted(x) for x in preds]
+    except (KeyError, IndexError, TypeError):
+        return []
+
+
 def render(scalars, tables, types, enums, rules):
     out = []
     out.append("/-! GENERATED by translate/lalr.py from feel-parser/src/lalr.rs — do not edit by hand.")
@@ -111,6 +176,11 @@ def render(scalars, tables, types, enums, rules):
     out.append("")
     out.append("/-- rule numbers with a reduce action in `fn reduce` (all others are `Ok(())`) -/")
     out.append("def REDUCE_ACTION_RULES : List Nat := %s" % lean_list(rules))
+    out.append("")
+    out.append("/-- witness for the LR stack invariant: `PREDS[v]` = the states from which the driver can push state `v`")
+    out.append("(computed by translate/lalr.py as a least fixed point over the tables; re-checked by `stackOk`) -/")
+    preds = lr_preds(scalars, tables)
+    out.append("def PREDS : List (List Int) := [\n%s]" % ",\n".join("  [%s]" % ", ".join(str(u) for u in row) for row in preds))
     out.append("")
     out.append("end Dmn.Gen.Lalr")
     return "\n".join(out) + "\n"
